@@ -196,6 +196,25 @@ func (s *vfSched) parkedAt(actor string) string {
 	return ""
 }
 
+// releasedFrom reports whether some actor's latest event is its release from the named point: it is on its way from
+// there to its next point (running, or blocked on something the scheduler cannot see).
+func (s *vfSched) releasedFrom(point string) bool {
+	s.mu.Lock()
+	defer s.mu.Unlock()
+	last := map[string]vfEvent{}
+	for _, ev := range s.events {
+		if ev.Actor != "?" {
+			last[ev.Actor] = ev
+		}
+	}
+	for _, ev := range last {
+		if ev.Kind == "release" && ev.Point == point {
+			return true
+		}
+	}
+	return false
+}
+
 func (s *vfSched) isFinished(actor string) bool {
 	s.mu.Lock()
 	defer s.mu.Unlock()
